@@ -32,16 +32,16 @@ import (
 func init() {
 	kernel.Register(&kernel.World{
 		Property: "C03", Bubble: true, Run: func(c *kernel.Ctx) { runAuthz(c, "C03") }, RunsPerProc: 100, RunTimeout: 300 * time.Second,
-		Rule: "one run = one real broker (license v1/v2/v3 by tape) and a set of keys: minted by real keygen requests (targets from the grammar {a,b,c,+,trailing #} of depth 1-4, every subset of r/w/s/l/p, ttl none / 20 s / 200 s) or forged with the license's cipher (foreign contract id, wrong signature, wrong master id, already expired, garbage, key of another license); the tape then issues subscribe / publish / history / presence requests on channels of the same grammar, advances the clock across expiries (never within 1 s of one), bans and unbans keys; every reply is compared with a reference decision (decrypts, contract, not expired, not banned, permission for that entry point, target covers channel). The simulation decides expiry, ban state, contract validity and the permission per entry point; the target-covers-channel relation is only SAMPLED (coverage.distinct_abstract_states counts the distinct (target shape, channel shape, permission, operation, expiry class) tuples hit). non-trivial = >= 1 permitted and >= 1 refused operation; distinct = distinct canonical logs",
-		Real:  []string{"broker.Service.Authorize", "security.Key (SetTarget, ValidateChannel, expiry)", "security.ParseChannel", "contract.SingleContractProvider", "keygen / keyban / history / presence / pubsub entry points", "license ciphers v1-v3", "cluster.Swarm ban state"},
-		Stub:  []string{"client sockets (simnet)", "weaveworks/mesh (simmesh, single node)", "clock (synctest)"},
+		Rule:        "one run = one real broker (license v1/v2/v3 by tape) and a set of keys: minted by real keygen requests (targets from the grammar {a,b,c,+,trailing #} of depth 1-4, every subset of r/w/s/l/p, ttl none / 20 s / 200 s) or forged with the license's cipher (foreign contract id, wrong signature, wrong master id, already expired, garbage, key of another license); the tape then issues subscribe / publish / history / presence requests on channels of the same grammar, advances the clock across expiries (never within 1 s of one), bans and unbans keys; every reply is compared with a reference decision (decrypts, contract, not expired, not banned, permission for that entry point, target covers channel). The simulation decides expiry, ban state, contract validity and the permission per entry point; the target-covers-channel relation is only SAMPLED (coverage.distinct_abstract_states counts the distinct (target shape, channel shape, permission, operation, expiry class) tuples hit). non-trivial = >= 1 permitted and >= 1 refused operation; distinct = distinct canonical logs",
+		Real:        []string{"broker.Service.Authorize", "security.Key (SetTarget, ValidateChannel, expiry)", "security.ParseChannel", "contract.SingleContractProvider", "keygen / keyban / history / presence / pubsub entry points", "license ciphers v1-v3", "cluster.Swarm ban state"},
+		Stub:        []string{"client sockets (simnet)", "weaveworks/mesh (simmesh, single node)", "clock (synctest)"},
 		Assumptions: []string{"the HTTP contract provider is not simulated (needs a network)", "the grammar of targets and channels is sampled, not enumerated (enumeration would be model checking)"},
 	})
 	kernel.Register(&kernel.World{
 		Property: "C11", Bubble: true, Run: func(c *kernel.Ctx) { runAuthz(c, "C11") }, RunsPerProc: 100, RunTimeout: 300 * time.Second,
-		Rule: "one run = the C03 world with tape-generated key-generation and link-extension requests: every parent kind (master, expired master, master of another license, extendable with each permission mask, ordinary, garbage), requested type strings over r/w/s/l/p/e and junk letters, ttl none / 20 s / 200 s, channels valid / invalid / wildcard / with '#/'; every returned key is decrypted with the license's cipher and must have no master bit, permissions within the request (and the parent for extensions), the parent's contract / signature / master id, exactly the requested target (for extensions: channel + the requesting connection's id) and the requested expiry against the simulated clock; refused requests must be refused; the returned key is then USED (subscribe/publish, also from another connection, also after expiry) and an extendable key must be refused for publish / subscribe / link auto-subscribe. non-trivial = >= 1 key minted and used; distinct = distinct canonical logs",
-		Real:  []string{"keygen.OnRequest / CreateKey / ExtendKey", "link service", "pubsub entry points", "broker.Service.Authorize", "license ciphers"},
-		Stub:  []string{"client sockets (simnet)", "weaveworks/mesh (simmesh, single node)", "clock (synctest)"},
+		Rule:        "one run = the C03 world with tape-generated key-generation and link-extension requests: every parent kind (master, expired master, master of another license, extendable with each permission mask, ordinary, garbage), requested type strings over r/w/s/l/p/e and junk letters, ttl none / 20 s / 200 s, channels valid / invalid / wildcard / with '#/'; every returned key is decrypted with the license's cipher and must have no master bit, permissions within the request (and the parent for extensions), the parent's contract / signature / master id, exactly the requested target (for extensions: channel + the requesting connection's id) and the requested expiry against the simulated clock; refused requests must be refused; the returned key is then USED (subscribe/publish, also from another connection, also after expiry) and an extendable key must be refused for publish / subscribe / link auto-subscribe. non-trivial = >= 1 key minted and used; distinct = distinct canonical logs",
+		Real:        []string{"keygen.OnRequest / CreateKey / ExtendKey", "link service", "pubsub entry points", "broker.Service.Authorize", "license ciphers"},
+		Stub:        []string{"client sockets (simnet)", "weaveworks/mesh (simmesh, single node)", "clock (synctest)"},
 		Assumptions: []string{"parent kind x type string x channel shape is sampled"},
 	})
 }
@@ -512,6 +512,14 @@ func runC11(w *azWorld) {
 		parents = append(parents, &parent{name: fmt.Sprintf("p%d[%s %s]", i, target, typ), key: r.Key, valid: ext, perms: model.PermsOf(typ), target: target, ext: ext})
 	}
 	minted := 0
+	var prev struct {
+		set          bool
+		p            *parent
+		typ, chanStr string
+		ttl          int
+		chanLv       []string
+		badChan      bool
+	}
 	steps := t.Range(10, 60)
 	for s := 0; s < steps && !t.Exhausted(); s++ {
 		c.Step()
@@ -562,9 +570,25 @@ func runC11(w *azWorld) {
 				chanStr = model.Join(chanLv)
 			}
 		}
+		if prev.set && t.Chance(1, 6) {
+			// the very same request again, some seconds later (a client that asks for its keys on every start):
+			// the ttl counts from this request
+			p, typ, ttl, chanLv, chanStr, badChan = prev.p, prev.typ, prev.ttl, prev.chanLv, prev.chanStr, prev.badChan
+			world.Advance(c, time.Duration(t.Range(2, 30))*time.Second)
+			c.Probe("identical-keygen-request-repeated-later")
+		}
+		prev.set, prev.p, prev.typ, prev.ttl, prev.chanLv, prev.chanStr, prev.badChan = true, p, typ, ttl, chanLv, chanStr, badChan
 		world.Advance(c, time.Duration(t.Range(1, 900))*time.Millisecond)
 		reqAt := time.Now()
 		viaHTTP := t.Chance(1, 4)
+		early := false
+		if !viaHTTP && !p.master && t.Chance(1, 6) {
+			// a connection that asks for its extension before it has sent CONNECT (the broker serves emitter/
+			// requests on any open connection): its private sub-channel is still named after that connection
+			cl = w.b.Attach("early")
+			early = true
+			c.Probe("extension-requested-before-connect")
+		}
 		var r *world.Resp
 		if viaHTTP {
 			// the /keygen page of the broker's HTTP endpoint (real net/http server behind the real listener)
@@ -594,6 +618,9 @@ func runC11(w *azWorld) {
 				c.Probe("keygen-request-without-ttl")
 			}
 			r, _ = world.Request(c, cl, "keygen", body)
+		}
+		if early {
+			world.ConnectClient(c, cl, "early", "", nil)
 		}
 		ok := r != nil && r.Status == 200
 		c.Logf("c%d keygen parent=%s channel=%s type=%q ttl=%d -> ok=%v", ci, p.name, chanStr, typ, ttl, ok)
@@ -757,7 +784,7 @@ func runC11(w *azWorld) {
 				}
 			}
 		}
-		if ttl > 0 && ttl < 100000 && t.Chance(1, 3) && staticUse && ki.Perms&model.PermWrite != 0 && k.Permissions()&security.AllowExtend == 0 {
+		if ttl > 0 && ttl < 100000 && !early && t.Chance(1, 3) && staticUse && ki.Perms&model.PermWrite != 0 && k.Permissions()&security.AllowExtend == 0 {
 			w.advance(time.Duration(ttl+3) * time.Second)
 			if w.publishOK(cl, r.Key, useLv) {
 				c.Check("expiry", "use-after", "derived key with ttl %d is still accepted %d s after it was issued", ttl, ttl+3)
